@@ -1,0 +1,46 @@
+//go:build verif
+
+// Package verifshim re-exports constructors and handlers of internal/mobius for the external
+// verification harness, which lives in another module and cannot import an internal package.
+// It is compiled only with -tags verif.
+package verifshim
+
+import (
+	"github.com/jhalter/mobius/hotline"
+	"github.com/jhalter/mobius/internal/mobius"
+	"github.com/jhalter/mobius/internal/verifhook"
+)
+
+type (
+	FlatNews           = mobius.FlatNews
+	Agreement          = mobius.Agreement
+	BanFile            = mobius.BanFile
+	ThreadedNewsYAML   = mobius.ThreadedNewsYAML
+	YAMLAccountManager = mobius.YAMLAccountManager
+)
+
+var (
+	NewFlatNews           = mobius.NewFlatNews
+	NewAgreement          = mobius.NewAgreement
+	NewBanFile            = mobius.NewBanFile
+	NewThreadedNewsYAML   = mobius.NewThreadedNewsYAML
+	NewYAMLAccountManager = mobius.NewYAMLAccountManager
+	RegisterHandlers      = mobius.RegisterHandlers
+	LoadConfig            = mobius.LoadConfig
+)
+
+// Handlers returns the handler table exactly as RegisterHandlers installs it.
+func Handlers() map[hotline.TranType]hotline.HandlerFunc {
+	srv, _ := hotline.NewServer()
+	mobius.RegisterHandlers(srv)
+	return srv.VerifHandlers()
+}
+
+// InstallHook installs the process-wide verifhook callback.
+func InstallHook(f func(name string, srv any, cid [2]byte, x uint32)) {
+	if f == nil {
+		verifhook.Install(nil)
+		return
+	}
+	verifhook.Install(verifhook.Func(f))
+}
